@@ -175,20 +175,25 @@ def self_heals(repo: Repo, cls: ClassInfo) -> Tuple[bool, str]:
         return False, "no execute"
     selfn = ex.params()[0]
     flag = None
-    rerun = None
-    for n in walk_no_nested(ex.node):
-        if isinstance(n, ast.If) and is_self_attr(n.test, None, selfn):
-            if any(isinstance(c, ast.Call) and isinstance(c.func, ast.Attribute) and c.func.attr == "execute" and "UpdateInfoTransformer" in src(c.func.value)
-                   for st in n.body for c in ast.walk(st)):
-                flag = n.test.attr
-                rerun = n
-    if flag is None:
-        return False, "execute never re-runs UpdateInfoTransformer"
-    # the re-run must come after the section rewriting: it post-dominates entry is implied by being at top level of execute
     c = cfg_of(ex.node)
-    rn = c.node_of(rerun.test)
-    if rn is None or not c.postdominates(rn, c.entry):
-        return False, "the re-run test is not on every path of execute"
+    reruns = [x for x in walk_no_nested(ex.node) if isinstance(x, ast.Call) and isinstance(x.func, ast.Attribute) and x.func.attr == "execute" and "UpdateInfoTransformer" in src(x.func.value)]
+    if not reruns:
+        return False, "execute never re-runs UpdateInfoTransformer"
+    from ..shape import conjuncts
+    from .validate import controlling_tests
+    for call in reruns:
+        rn = c.node_of(call)
+        if rn is None:
+            continue
+        facts = []
+        for t, reach in controlling_tests(c, rn):
+            if isinstance(t.ast, ast.expr):
+                facts += conjuncts(t.ast, bool(reach))
+        # the re-run happens exactly when the flag is set: the flag (true) is the only fact deciding it
+        if len(facts) == 1 and is_self_attr(facts[0][0], None, selfn) and facts[0][1] is True:
+            flag = facts[0][0].attr
+    if flag is None:
+        return False, "the re-run of UpdateInfoTransformer is not controlled by exactly one flag of the pass"
     sites = construct_sites(repo, cls)
     for m, site, what in sites:
         # within the function holding the site (or its caller within the class) the flag is set on every path after the site
@@ -511,8 +516,10 @@ def rule_rebuilders(repo: Repo) -> List[Ob]:
                 # list(s) appended to inside the loop and returned by the function
                 appended = {}
                 for c in ast.walk(loop):
-                    if isinstance(c, ast.Call) and isinstance(c.func, ast.Attribute) and c.func.attr == "append" and isinstance(c.func.value, ast.Name):
+                    if isinstance(c, ast.Call) and isinstance(c.func, ast.Attribute) and c.func.attr in ("append", "extend", "insert") and isinstance(c.func.value, ast.Name):
                         appended.setdefault(c.func.value.id, []).append(c)
+                    if isinstance(c, ast.AugAssign) and isinstance(c.op, ast.Add) and isinstance(c.target, ast.Name):
+                        appended.setdefault(c.target.id, []).append(c)
                 returned = {r.value.id for r in walk_no_nested(m.node) if isinstance(r, ast.Return) and isinstance(r.value, ast.Name)}
                 lists = [l for l in appended if l in returned]
                 if not lists:
